@@ -7,10 +7,10 @@ CHECKS = {
     "C01": ("exploration", "runtime monitor: reference list model compared after every public call, bounded-exhaustive + seeded-random histories with reopen",
             "Held on every history executed: all symbol sequences up to the bound plus random histories, with the model oracle after every operation and reopen-invariance of the full observation. Exploration is the right level: the property quantifies over unbounded histories and inputs; nothing is proved.",
             "instrumented in-memory backend has the semantics of the stock backends (checked differentially by C14); model is a 40-line list", "3 C01"),
-    "C02": ("fault_enumeration", "crash enumeration over the storage-operation journal with before-or-after model oracle and usability continuation",
+    "C02": ("fault_enumeration", "crash enumeration over the storage-operation journal with before-or-after model oracle and usability continuations (operations + reopens; a fresh replica replicating from the recovered writer)",
             "Every prefix of the journal of mutating storage operations of each recorded history (writer, replica, make_read_only) is materialised, reopened and compared with the model before/after the interrupted call, then a continuation must satisfy the model. Exhaustive per history over crash points; histories bounded-exhaustive + random.",
             "operations atomic and persisted in issue order (the property's fault model)", "3 C02"),
-    "C03": ("exploration", "runtime monitor over writer/replica sessions: honest proofs for well-formed requests must be accepted, replica observation compared with a replica model after every round, convergence check; node cache off/default/tiny",
+    "C03": ("exploration", "runtime monitor over writer/replica sessions: honest proofs for well-formed requests must be accepted, replica observation compared with a replica model after every round, convergence check, then second-hop replication from the converged replica; node cache off/default/tiny/volatile",
             "Held on every replication session executed: all request sequences up to the bound over small logs for every first-upgrade length, plus random sessions with growth rounds, clears and replica reopens, one 33k and one 70k-block log.",
             "well-formedness of a request is W1-W5 of DESIGN.md 2.4", "3 C03"),
     "C04": ("exploration", "alteration battery on replica clones: every single-field alteration, stale proofs and systematic forgeries of every honest proof; must-refuse / unchanged-on-refusal / harmless-on-acceptance oracles; replica node cache off/default/tiny",
@@ -31,7 +31,7 @@ CHECKS = {
     "C12": ("fault_enumeration", "runtime monitor for NotWritable / zero storage ops on secret-less cores, byte scan of all store images for key material after make_read_only, crash enumeration (with byte-prefix tears for a third of the histories) inside make_read_only, builder gate for every kind of key pair",
             "Held on every history executed with make_read_only at every position of short histories (exhaustive) and random positions of long ones, all crash points inside the call, replicas.",
             "payloads cannot contain key material (pseudo-random)", "3 C12"),
-    "C13": ("exploration", "event monitor: every subscriber drained after every public call and compared with the expected event list; union-of-announcements check",
+    "C13": ("exploration", "event monitor: every subscriber drained after every public call and compared with the expected event list (plain Hypercore and through the SharedCore wrapper); union-of-announcements check; fault-injected appends",
             "Held on every writer history and replica session executed (honest, stale, altered proofs, refused appends, appends failed by injected storage faults), 1-3 subscribers.",
             "subscribers always drained (< 32 pending events)", "3 C13"),
     "C05": ("exploration", "independent re-implementation (reference Merkle tree, root hash, signable, Ed25519 verify_strict, independent proof verifier) compared with raw tree/oplog bytes after every op and with every node of every honest proof (served by the writer or by a replica); replica-persisted nodes and held leaves; node cache off/default/tiny",
